@@ -10,7 +10,7 @@ for sid in sorted(os.listdir(os.path.join(V, "seeded"))):
         continue
     m = json.load(open(os.path.join(d, "meta.json")))
     props = ",".join(m.get("properties") or [m["property"]])
-    origin = "harmless rewrite" if sid.startswith("HARMLESS") else "fix reversal" if sid.startswith("FIXREV") else "reviewer" if sid.startswith("R1_") else "builder" if "_rf" in sid else \
+    origin = "harmless rewrite" if sid.startswith("HARMLESS") else "fix reversal" if sid.startswith("FIXREV") else "reviewer" if sid.startswith(("R1_", "R3_")) else "builder" if "_rf" in sid else \
         "round 3" if "_r3_" in sid else "round 2" if "_r2_" in sid else "round 1"
     first = "missed: " + fc[sid] if sid in fc else "caught"
     if sid.startswith("HARMLESS"):
